@@ -437,7 +437,9 @@ def _emission_protocol(r: RuleResult, f: FuncInfo, label: str):
 
 def run(prog: Program, tier: str) -> List[RuleResult]:
     # thorough: three selector levels (259 initial shapes per routine) instead of two (43)
-    from .c03 import carry1
+    from .c03 import carry1, carry_reset_reach
 
     # what a selector remembers about conclusions it already produced decides which branch fires: it must be reset for every concrete selector (shared with C03)
-    return [rule_surgery(prog, 3 if tier == "thorough" else 2), rule_select(prog), carry1(prog)]
+    return [rule_surgery(prog, 3 if tier == "thorough" else 2), rule_select(prog), carry1(prog),
+            # ... and the reset has to reach the selectors of branches written after an evaluation
+            carry_reset_reach(prog)]
